@@ -8,10 +8,21 @@ LEVEL_TEXT = ("Lean theorem (non-interference, unbounded in statements and files
               "written, truncated or removed leaves the same bytes in every file it touches whatever persistent state earlier runs left behind. The effect "
               "summary of the generation stage (every open/loadtxt/savetxt/remove and every cat/sed/mv/rm shell command of duplicate_checker.main and "
               "its callees, in execution order, loops over literal lists unrolled) is regenerated from the source on every run and the predicate is decided "
-              "on it in Lean; likewise that every shuffle is seeded in its own stage and every stage (re)writes the symbol-table keys it reads. The summary "
+              "on it in Lean. The summary also exists in structured form: an open whose mode is chosen at run time ('w' if i == 0 else 'a', a mode variable bound "
+              "in branches or re-bound in a loop) keeps its condition (always / firstIteration / conditional) and counts as the weakest of its modes in the flat "
+              "summary, and the effects inside a for/while over a run-time collection form a loop block (for v in range(e): indices in order; anything else: any "
+              "index may be skipped). Lean theorem (unbounded in the number of iterations): if the dominance check safeAll passes on the structured summary then on "
+              "EVERY execution -- every loop run any number of times including zero, indices skipped, either arm of every run-time mode -- each read/append follows a "
+              "truncation/write/remove of that file in the same execution, hence every execution is history independent; conversely an execution that appends to a "
+              "file it never truncates has two initial states with different outputs and safeAll rejects its program (append_after_conditional_truncate_depends_on_"
+              "history). safeAll is decided on the regenerated generation summary, with the numbered round files of do_sympy (written by one loop, read back by a later "
+              "loop over the same count) declared and checked by the audit trace instead. Likewise that every shuffle is seeded in its own stage and every stage (re)writes the symbol-table keys it reads. The summary "
               "is validated against a dynamic audit trace of a real run, and real runs after PRNG-drawn histories (other bases, other complexities, repeats, "
               "left-over and corrupted outputs; same process and fresh process) are compared byte for byte with a fresh run, for generation and for the "
-              "four fitting stages. In-memory state: a second table regenerated from the source lists every cell that survives between two calls in one "
+              "four fitting stages; and for one operator basis per arity-class profile (every emptiness/singleton pattern of the unary and binary classes, both nullary "
+              "singletons, no leaf label; through the verif_* hook) and every complexity 1..4 (1..5 thorough) the second identical call in one process and a new process "
+              "over the directory of the earlier runs are compared byte for byte with the first run, a difference being re-run in isolation against a fresh process "
+              "into an empty directory before it is reported. In-memory state: a second table regenerated from the source lists every cell that survives between two calls in one "
               "process (every module-level name of every esr module, mutable default arguments, class and function attributes, lru_cache memos, numpy's and "
               "random's global generators, signal handlers and timers, warning filters, os.environ, cwd, recursion limit, numpy error/print state, sympy "
               "printer settings and cache) with, per entry point, whether it is not touched / only read / written with the import-time literal / completely "
@@ -23,7 +34,8 @@ LEVEL_TEXT = ("Lean theorem (non-interference, unbounded in statements and files
 TECHNIQUE = ("Lean 4 non-interference proofs over a file-effect summary and an in-memory cell table, both regenerated from source + audit-trace and "
              "memory-fingerprint validation + differential history runs")
 RULE = ("one case = one (history, observed call) pair whose output files are byte-compared with the fresh-process/empty-directory run; non-trivial = "
-        "the history has at least one earlier call or left-over file; distinct by the history")
+        "the history has at least one earlier call or left-over file; distinct by the history; rerun grid: one case per (basis, complexity, kind of rerun), "
+        "trivial when that basis has no library at that complexity even in a fresh process")
 EXPLANATION = LEVEL_TEXT
 TRUSTED = ["harness/extractors/effects.py (static effect extraction; validated against the audit trace each run)", "Python audit events 'open', 'os.system', 'os.remove', 'os.rename' are complete for file access of the stage",
            "harness/extractors/_norm_c16.py, semantics-preserving readings shared by both extractors: (A) one level of helper inlining -- a private module-level "
@@ -33,6 +45,10 @@ TRUSTED = ["harness/extractors/effects.py (static effect extraction; validated a
            "(B) order of statements/calls taken from the source order, not from line numbers; (C) key flow -- names that only ever hold a<i> strings / lists of "
            "them (index, zip, enumerate loops, f-string/format/concatenation/%-keys, list indexing) and `dict.update(zip(names, symbols))` / `.update({key: ..})` "
            "read as item-by-item stores into a<i> keys; only the FORM of the keys is claimed, other keys changing is caught by the memory fingerprints",
+           "effects.py readings of open modes and loops: a mode name is read flow-insensitively as any literal it is bound to in the function (more than two, or a "
+           "non-literal binding: fail closed); `firstIteration` only for `X if v == 0 else Y` (==, !=, >, >=1, <1, <=0, not v, v) on the variable of the innermost loop of "
+           "the same function, decided inside that loop, v not re-bound; `if` branches are still read in sequence (rank tests are consistent); a truncation inside a loop "
+           "nested in a loop block is read as `may not happen` (alternative r); the numbered round files (inv_idx/inv_subs_<n>_round_<k>) are a declared family",
            "effects.py readings: file names through %/f-string/str.format/concatenation/os.path.join/hoisted locals/module-level constants; literal lists and tuples of "
            "names unrolled; open mode positional, mode=, or via a local literal ('b'/'t' dropped); os.rename/os.replace/shutil.move = mv, os.unlink = os.remove, "
            "shutil.copy* = read+write; unknown pathlib/tempfile/shutil/np.save-like file operations fail closed; the symbol table recognised as the module-level dict "
@@ -43,7 +59,9 @@ TRUSTED = ["harness/extractors/effects.py (static effect extraction; validated a
            "process-wide setters; validated against memory fingerprints each run)",
            "state kept inside third-party libraries is not enumerated cell by cell: sympy's cache is one declared cell assumed result-neutral, covered only by the differential runs",
            "objects passed in as arguments (the likelihood object) are inputs of a call, not cells"]
-ASSUMPTIONS = ["earlier runs completed (no stale per-rank temp files)", "the fitting stages are observed with the numpy RNG re-seeded at the start of the observed stage",
+ASSUMPTIONS = ["earlier runs completed (no stale per-rank temp files)",
+               "the later loop over the rounds reads only round files (inv_idx_<n>_round_<k>, inv_subs_<n>_round_<k>) that the rounds loop of the same run wrote: a fact about "
+               "the round count, declared in Props/C16.lean (roundFamilies) and checked with exact file names by the audit trace of every reference run", "the fitting stages are observed with the numpy RNG re-seeded at the start of the observed stage",
                "the interpreter recursion limit (only ever raised, by fitting calls at complexity >= 8) and sympy's internal cache do not change results",
                "the single-function API (esr.fitting.fit_single) is outside the statement: its string front end reads the a<i> entries of the shared sympy symbol "
                "table without binding them first (theorem carried_with_single_function_api_partial; observed each run, reported in coverage.fit_single_api_probe)"]
@@ -109,7 +127,13 @@ def _shell_effects(cmd):
 def _validate_trace(ctx, trace, libdir):
     """dynamic no-read-before-write + every dynamic effect is in the static summary"""
     from extractors import effects as fx
-    static = set((k, a) for _, _, k, a in fx.analyse(ctx.stage)[0])
+    try:
+        static = set((k, a) for _, _, k, a in fx.analyse(ctx.stage)[0])
+    except Exception as e:
+        # the translator cannot read today's source: a broken obligation (the failing-input search goes on), never a crash
+        static = None
+        ctx.disagree("trace:summary-unreadable", "the static effect summary cannot be regenerated from the current source (%s: %s); "
+                     "the audit trace is only checked for read-before-write" % (type(e).__name__, str(e)[:200]))
     fresh = set()
     n = 0
     for ev in trace:
@@ -140,9 +164,21 @@ def _validate_trace(ctx, trace, libdir):
                 fresh.add(base)
             elif base not in fresh:
                 ctx.disagree("trace:read-before-write", "the run %s %s before writing it" % ("appends to" if acc == "a" else "reads", base))
-            if (key, acc) not in static and (key, "w" if acc == "rm" else acc) not in static:
+            if static is not None and (key, acc) not in static and (key, "w" if acc == "rm" else acc) not in static \
+                    and not (acc == "w" and (key, "a") in static and _may_truncate(ctx, key)):
                 ctx.disagree("trace:not-in-summary", "dynamic effect (%s,%s) is not in the static effect summary" % (key, acc))
     return n
+
+
+def _may_truncate(ctx, key):
+    """the flat summary lists an open whose mode is chosen at run time under its weakest arm (`a`); a dynamic `w` of that file is an
+    instance of it when the structured summary says the other arm truncates"""
+    from extractors import effects as fx
+    try:
+        effs, _, _, effx = fx.analyse(ctx.stage, structured=True)
+    except Exception:
+        return False
+    return any(k == key and m["cond"] != "always" and "w" in (m["acc"], m["alt"]) for (_, _, k, _), m in zip(effs, effx))
 
 
 def _RNG2(ctx):
@@ -161,7 +197,12 @@ def _history_generation(ctx, target, nhist):
     if rc != 0:
         ctx.disagree("reference-run", "fresh generation of %s n=%d failed: %s" % (runname, compl, tail)); return
     refdir = _libdir(ref, runname, compl)
-    ntr = _validate_trace(ctx, json.load(open(trace)), refdir)
+    try:
+        events = json.load(open(trace))
+    except Exception as e:
+        events = []
+        ctx.disagree("trace:missing", "no audit trace of the reference run of %s n=%d (%s)" % (runname, compl, e))
+    ntr = _validate_trace(ctx, events, refdir)
     ctx.extra["trace_effects"] = ctx.extra.get("trace_effects", 0) + ntr
     names = list(BASES)
     for h in range(nhist):
@@ -207,6 +248,147 @@ def _history_generation(ctx, target, nhist):
         else:
             ctx.sample(dict(target=[runname, compl], history=hist, kind=kind, identical_files=len(os.listdir(refdir))), cap=5)
         shutil.rmtree(copy, ignore_errors=True)
+
+
+_POOL = (["x", "a"], ["inv", "exp", "square", "sqrt_abs", "log_abs", "sin"], ["+", "*", "-", "/", "pow"])
+RERUN_HISTORIES = {"same": "the identical call made once before in the same process (same directory)",
+                   "newproc": "a new process over the directory left by two earlier completed identical runs"}
+
+
+def _rerun_bases(ctx, deep):
+    """the arity-class profile grid (cf. props/c01.py): one basis for EVERY combination of class sizes in the tier's box -- every
+    emptiness pattern of the unary and binary classes, singleton classes, both nullary singletons -- labels drawn from ctx.rng"""
+    kmax = 3 if deep else 2
+    out = []
+    for b0 in (["x"], ["a"], ["x", "a"]):
+        for k1 in range(kmax + 1):
+            for k2 in range(kmax + 1):
+                out.append([list(b0), ctx.rng.sample(_POOL[1], k1), ctx.rng.sample(_POOL[2], k2)])
+    out.append([[], ctx.rng.sample(_POOL[1], 1), ctx.rng.sample(_POOL[2], 1)])       # no leaf label at all
+    out.append([["x", "a"], [], ["+", "*", "-", "/"]])                                  # rational functions
+    return out
+
+
+def _rerun_worker(ctx, copy, runname, basis, compls, snap, phase, timeout=900):
+    env = ctx.env()
+    env["PYTHONPATH"] = os.pathsep.join([common.STANDIN, copy, common.HARNESS])
+    out = os.path.join(snap, "report_%s.json" % phase)
+    os.makedirs(snap, exist_ok=True)
+    try:
+        p = subprocess.run([common.PY, os.path.join(common.HARNESS, "workers", "gen_rerun.py"),
+                            json.dumps(dict(runname=runname, basis=basis, compls=compls, snap=snap, phase=phase, out=out))],
+                           env=env, cwd=copy, capture_output=True, text=True, timeout=timeout)
+        tail = p.stderr[-400:]
+    except subprocess.TimeoutExpired:
+        tail = "timeout after %d s" % timeout
+    try:
+        return json.load(open(out)), tail
+    except Exception:
+        return None, tail
+
+
+def _rerun_one(ctx, copy, k, basis, compls):
+    """phase A then phase B for one basis -> {n: dict(first=ok?, same=.., newproc=.., err=..)}, snapshot directory"""
+    runname = "verif_c16_%d" % k
+    snap = os.path.join(ctx.tmp, "c16_rerun_snap", runname)
+    res = {n: {} for n in compls}
+    ra, tail = _rerun_worker(ctx, copy, runname, basis, compls, snap, "A")
+    if ra is None:
+        return dict(worker_failed="A: " + tail), snap
+    for r in ra:
+        res[r["n"]]["first" if r["call"] == 1 else "same"] = r["ok"] or r.get("error", "?")
+    okc = [n for n in compls if res[n].get("first") is True]
+    if okc:
+        rb, tail = _rerun_worker(ctx, copy, runname, basis, okc, snap, "B")
+        if rb is None:
+            return dict(worker_failed="B: " + tail), snap
+        for r in rb:
+            res[r["n"]]["newproc"] = r["ok"] or r.get("error", "?")
+    return res, snap
+
+
+def _rerun_confirm(ctx, basis, n, tag, compls=None):
+    """the history in isolation: reference = ONE call in a fresh process into an empty directory; history = the calls of `compls`
+    (default: just n) twice in one process [+ a new process].  -> (differing files | None when it cannot be run, note)"""
+    _MEM["n"] += 1
+    ref = common.fresh_copy(ctx, "c16_rr_ref_%d" % _MEM["n"]); his = common.fresh_copy(ctx, "c16_rr_his_%d" % _MEM["n"])
+    try:
+        sref = os.path.join(ctx.tmp, "c16_rr_snap_%d_ref" % _MEM["n"]); shis = os.path.join(ctx.tmp, "c16_rr_snap_%d_his" % _MEM["n"])
+        r0, t0 = _rerun_worker(ctx, ref, "verif_c16_r", basis, [n], sref, "B")          # phase B on an empty directory = one fresh call
+        if not r0 or not r0[0]["ok"]:
+            return None, "reference run fails: %s" % (r0 or t0)
+        ra, ta = _rerun_worker(ctx, his, "verif_c16_r", basis, compls or [n], shis, "A")
+        if tag == "newproc" and ra:
+            ra, ta = _rerun_worker(ctx, his, "verif_c16_r", basis, compls or [n], shis, "B")
+        d = os.path.join(shis, "%s_%d" % (tag, n))
+        if not os.path.isdir(d):
+            return ["<the call after the history fails: %s>" % ([r.get("error") for r in (ra or []) if not r["ok"]] or ta)], ""
+        return _cmp_dirs(os.path.join(sref, "newproc_%d" % n), d), ""
+    finally:
+        shutil.rmtree(ref, ignore_errors=True); shutil.rmtree(his, ignore_errors=True)
+
+
+def _history_reruns(ctx, deep):
+    """Repeated identical calls and runs over the directories of earlier completed runs, for every arity-class profile: the second
+    identical call in one process and a new process over the old directory must leave, byte for byte, the files of the first run."""
+    from concurrent.futures import ThreadPoolExecutor
+    bases = _rerun_bases(ctx, deep)
+    compls = [1, 2, 3, 4] if not deep else [1, 2, 3, 4, 5]
+    copy = common.fresh_copy(ctx, "c16_rerun")
+    os.makedirs(os.path.join(copy, "esr", "function_library"), exist_ok=True)
+    with ThreadPoolExecutor(max_workers=min(16, os.cpu_count() or 4)) as ex:
+        results = list(ex.map(lambda kb: _rerun_one(ctx, copy, kb[0], kb[1], compls), enumerate(bases)))
+    profiles, notgen, ncmp, confirmed, also = {}, [], 0, set(), []
+    for basis, (res, snap) in zip(bases, results):
+        prof = "".join("0" if not c else ("1" if len(c) == 1 else "+") for c in basis)
+        if "worker_failed" in res:
+            ctx.disagree("rerun:worker", "rerun worker for basis %s did not report: %s" % (basis, res["worker_failed"][-300:]))
+            continue
+        for n in compls:
+            r = res[n]
+            if r.get("first") is not True:
+                # this basis has no library at this complexity even in a fresh process (no leaf label, no tree of that size, ...):
+                # nothing to compare, not a matter of history
+                notgen.append([basis, n, str(r.get("first"))[:120]])
+                ctx.case(("rerun", json.dumps(basis), n), nontrivial=False)
+                continue
+            profiles[prof + (" odd" if n % 2 else " even")] = profiles.get(prof + (" odd" if n % 2 else " even"), 0) + 1
+            first = os.path.join(snap, "first_%d" % n)
+            for tag in ("same", "newproc"):
+                ctx.case(("rerun", json.dumps(basis), n, tag), nontrivial=True)
+                ncmp += 1
+                if r.get(tag) is not True:
+                    bad = ["<the call fails: %s>" % str(r.get(tag))[:200]]
+                else:
+                    bad = _cmp_dirs(first, os.path.join(snap, "%s_%d" % (tag, n)))
+                if not bad:
+                    continue
+                if tag in confirmed:
+                    also.append([basis, n, tag, bad[:3]])            # one isolated, replayable instance per kind of history is enough
+                    continue
+                # seen in the batch (the calls for lower complexities came before in the same process): isolate it
+                iso, note = _rerun_confirm(ctx, basis, n, tag)
+                rp = dict(kind="rerun", basis=basis, compl=n, history=tag, history_text=RERUN_HISTORIES[tag], compls=[n])
+                if not iso:
+                    iso2, note2 = _rerun_confirm(ctx, basis, n, tag, compls=[c for c in compls if c <= n])
+                    if iso2:
+                        iso, rp["compls"] = iso2, [c for c in compls if c <= n]
+                if iso is None:
+                    ctx.disagree("rerun:unconfirmed", "basis %s n=%d %s: differs in the batch (%s) but the isolated run could not be made: %s" % (basis, n, tag, bad[:3], note))
+                    continue
+                if not iso:
+                    ctx.disagree("rerun:unconfirmed", "basis %s n=%d %s: differs in the batch (%s) but not when replayed alone" % (basis, n, tag, bad[:3]))
+                    continue
+                confirmed.add(tag)
+                ctx.fail("history-dependent:generation:rerun:%s:%s" % (tag, iso[0].split("_")[0]),
+                         "generation with basis %s at complexity %d after %s%s differs from the run of a fresh process into an empty directory in %s" % (
+                             basis, n, RERUN_HISTORIES[tag], "" if rp["compls"] == [n] else " (each of the complexities %s twice before)" % rp["compls"][:-1], iso[:6]), rp)
+        shutil.rmtree(snap, ignore_errors=True)
+    shutil.rmtree(copy, ignore_errors=True)
+    ctx.extra["rerun_profiles"] = dict(
+        note="arity-class profile (per class 0 = empty, 1 = singleton, + = two or more) and parity of the complexity -> number of (basis, complexity) "
+             "whose second identical call and new-process rerun were byte-compared with the first run",
+        profiles=profiles, bases=len(bases), complexities=compls, comparisons=ncmp, differing_in_batch_not_isolated=also[:20], no_library_even_fresh=len(notgen), no_library_examples=notgen[:4])
 
 
 def _fit_calls(ctx, copy, dd, calls, timeout=1200, pre_recursionlimit=None, api_fit=False):
@@ -359,18 +541,31 @@ def run(ctx):
     _MEM.update(n=0, records=[], probes=[])
     # base_e_maths n=4: check_results un-merges several functions there, so the order of its seeded shuffle is observable
     targets = [("core_maths", 4), ("base_e_maths", 4)] if not deep else [("core_maths", 4), ("base_e_maths", 4), ("ext_maths", 3), ("keep_duplicates", 4), ("core_maths", 5)]
+    def phase(name, f, *a):
+        # a failure of the harness/extractor inside a phase is a broken obligation of that phase, never a crash of the check:
+        # the other phases (and with them the failing-input search) still run
+        try:
+            f(ctx, *a)
+        except Exception as e:
+            import traceback
+            ctx.disagree("phase:%s" % name, "%s: %s | %s" % (type(e).__name__, str(e)[:300], traceback.format_exc()[-500:]))
     for t in targets:
-        _history_generation(ctx, t, 4 if not deep else 12)
-    _history_fitting(ctx, 2 if not deep else 8)
-    _check_memstate(ctx)
+        phase("generation-histories", _history_generation, t, 4 if not deep else 12)
+    phase("fitting-histories", _history_fitting, 2 if not deep else 8)
+    phase("rerun-histories", _history_reruns, deep)
+    phase("memstate", _check_memstate)
     ctx.extra["corr_obligations"] = 2
-    ctx.extra["corr_discharged"] = int(not [d for d in ctx.disagreements if d["name"].startswith("trace")]) + \
+    ctx.extra["corr_discharged"] = int(not [d for d in ctx.disagreements if d["name"].startswith("trace") or d["name"].startswith("phase:")]) + \
         int(not [d for d in ctx.disagreements if d["name"].startswith("corr:memstate")])
 
 
 def replay(ctx, data):
     rp = data["replay"]
     c2 = common.Ctx("C16", "quick", 0); c2.tmp = ctx.tmp; c2.stage = ctx.stage; c2.seed = data.get("seed", 0)
+    if rp["kind"] == "rerun":
+        bad, note = _rerun_confirm(c2, rp["basis"], rp["compl"], rp["history"], compls=rp.get("compls"))
+        print("basis %s complexity %d after %s: differing files: %s %s" % (rp["basis"], rp["compl"], rp.get("history_text"), bad, note))
+        return bad is not None and not bad
     if rp["kind"] == "generation":
         runname, compl = rp["target"]
         ref = common.fresh_copy(c2, "r_ref"); _gen(c2, ref, [[runname, compl, None]])
